@@ -113,6 +113,36 @@ selidx_dense!(c01_selidx_dense48_rate255, 48, 255);
 selidx_dense!(c01_selidx_dense48_rate1000, 48, 1000);
 selidx_dense!(c01_selidx_dense48_rate7, 48, 7);
 
+/// Sparse concrete skeleton: two ones per word, one arbitrary two-bit word, so
+/// sample points and the k-th one usually sit in different words (a sample slot
+/// that is off by one then lands in a LATER word than the target).
+macro_rules! selidx_sparse {
+    ($name:ident, $n:expr, $rate:expr) => {
+        #[kani::proof]
+        #[kani::stub(alloc::vec::Vec::push, crate::stubs::push_no_grow)]
+        #[kani::stub(alloc::vec::Vec::with_capacity, crate::stubs::with_capacity_const)]
+        #[kani::unwind(6)]
+        fn $name() {
+            let mut w = [(1u64 << 7) | (1u64 << 40); $n];
+            let x: u64 = kani::any();
+            kani::assume(x.count_ones() == 2);
+            w[$n / 3] = x;
+            let total = 2 * $n;
+            let idx = SelectIndex::<u64>::build(&w, total, $rate);
+            let k: usize = kani::any();
+            kani::assume(k < total);
+            let (sw, rem) = idx.jump_to(k);
+            // every word holds two ones: the k-th one is in word k / 2
+            assert!(sw <= k / 2);
+            assert!(2 * sw + rem == k);
+            kani::cover!(k > 500 && rem > 50);
+            core::mem::forget(idx);
+        }
+    };
+}
+selidx_sparse!(c01_selidx_sparse270_rate255, 270, 255);
+selidx_sparse!(c01_selidx_sparse270_rate100, 270, 100);
+
 // ---- shared scan ---------------------------------------------------------------
 
 /// `scan_select(words, S, rem)`: `Some((w, r))` iff the ones in words[S..w]
